@@ -74,6 +74,7 @@ pub fn dispatch(op: &str, _args: &[String]) -> bool {
     match op {
         "c02-render" => run_batch(op_render),
         "c02-fit" => run_batch(op_fit),
+        "c02-morph" => run_batch(op_morph),
         "c02-classify" => run_batch(op_classify),
         _ => return false,
     }
@@ -261,6 +262,8 @@ fn op_classify(payload: &str) -> String {
         morph_cost: f64,
         octaves: u32,
         turb_freq: f64,
+        huge_param: f64,
+        filter_alloc_px: f64,
     }
     fn paint_tile(p: &usvg::Paint, ts: tiny_skia::Transform, acc: &mut Acc) {
         if let usvg::Paint::Pattern(ref pat) = p {
@@ -291,14 +294,63 @@ fn op_classify(payload: &str) -> String {
                 acc.filter_px = rw * rh;
             }
             let (sx, sy) = ts.get_scale();
+            // the layer = the device region clamped to max_bbox (at most 5W x 5H)
+            let (lw, lh) = (rw.min(5.0 * w).max(1.0), rh.min(5.0 * h).max(1.0));
             for p in flt.primitives() {
                 match p.kind() {
+                    // primitives whose result is allocated with the (unclamped) region size at HEAD
+                    usvg::filter::Kind::Blend(..) | usvg::filter::Kind::Composite(..) | usvg::filter::Kind::Flood(..)
+                    | usvg::filter::Kind::Image(..) | usvg::filter::Kind::Tile(..) | usvg::filter::Kind::Turbulence(..)
+                    | usvg::filter::Kind::DiffuseLighting(..) | usvg::filter::Kind::SpecularLighting(..)
+                    | usvg::filter::Kind::DisplacementMap(..) | usvg::filter::Kind::Merge(..) => {
+                        if rw * rh > acc.filter_alloc_px {
+                            acc.filter_alloc_px = rw * rh;
+                        }
+                    }
+                    _ => {}
+                }
+                match p.kind() {
                     usvg::filter::Kind::Morphology(ref m) => {
-                        let win = ((m.radius_x().get() * sx * 2.0).max(1.0) as f64).min(rw) * ((m.radius_y().get() * sy * 2.0).max(1.0) as f64).min(rh);
-                        let c = rw.min(5.0 * w) * rh.min(5.0 * h) * win;
+                        // HEAD: morphology::apply works on the layer-sized source and caps the window by that image:
+                        // cost = layer area x min(2*ceil(rx), layer width) x min(2*ceil(ry), layer height)
+                        let cols = ((m.radius_x().get() * sx).ceil() as f64 * 2.0).max(1.0).min(lw);
+                        let rows = ((m.radius_y().get() * sy).ceil() as f64 * 2.0).max(1.0).min(lh);
+                        let c = lw * lh * cols * rows;
                         if c > acc.morph_cost {
                             acc.morph_cost = c;
                         }
+                    }
+                    usvg::filter::Kind::ConvolveMatrix(ref c) => {
+                        let mut m = (c.bias().abs() as f64).max(1.0 / (c.divisor().get().abs() as f64).max(1e-300));
+                        for v in c.matrix().data() {
+                            m = m.max(v.abs() as f64);
+                        }
+                        acc.huge_param = acc.huge_param.max(m);
+                    }
+                    usvg::filter::Kind::ColorMatrix(ref c) => {
+                        if let usvg::filter::ColorMatrixKind::Matrix(ref v) = c.kind() {
+                            for x in v {
+                                acc.huge_param = acc.huge_param.max(x.abs() as f64);
+                            }
+                        }
+                    }
+                    usvg::filter::Kind::ComponentTransfer(ref c) => {
+                        for f in [c.func_r(), c.func_g(), c.func_b(), c.func_a()] {
+                            match f {
+                                usvg::filter::TransferFunction::Table(ref v) | usvg::filter::TransferFunction::Discrete(ref v) => {
+                                    for x in v {
+                                        acc.huge_param = acc.huge_param.max(x.abs() as f64);
+                                    }
+                                }
+                                _ => {}
+                            }
+                        }
+                    }
+                    usvg::filter::Kind::DiffuseLighting(ref l) => {
+                        acc.huge_param = acc.huge_param.max(l.surface_scale().abs() as f64).max(l.diffuse_constant().abs() as f64);
+                    }
+                    usvg::filter::Kind::SpecularLighting(ref l) => {
+                        acc.huge_param = acc.huge_param.max(l.surface_scale().abs() as f64).max(l.specular_constant().abs() as f64);
                     }
                     usvg::filter::Kind::Turbulence(ref t) => {
                         acc.octaves = acc.octaves.max(t.num_octaves());
@@ -341,7 +393,46 @@ fn op_classify(payload: &str) -> String {
     walk(tree.root(), ts, w, h, &mut acc);
     let fin = |x: f64| if x.is_finite() { x } else { 1e300 };
     format!(
-        "{{\"filters\":{},\"filter_px\":{:e},\"filter_outside\":{},\"patterns\":{},\"tile_px\":{:e},\"morph_cost\":{:e},\"octaves\":{},\"turb_freq\":{:e}}}",
-        acc.filters, fin(acc.filter_px), acc.filter_outside, acc.patterns, fin(acc.tile_px), fin(acc.morph_cost), acc.octaves, fin(acc.turb_freq)
+        "{{\"filters\":{},\"filter_px\":{:e},\"filter_outside\":{},\"patterns\":{},\"tile_px\":{:e},\"morph_cost\":{:e},\"octaves\":{},\"turb_freq\":{:e},\"huge_param\":{:e},\"filter_alloc_px\":{:e}}}",
+        acc.filters, fin(acc.filter_px), acc.filter_outside, acc.patterns, fin(acc.tile_px), fin(acc.morph_cost), acc.octaves, fin(acc.turb_freq), fin(acc.huge_param), fin(acc.filter_alloc_px)
     )
+}
+
+/// payload: `erode|dilate rx ry w h v...` (4*w*h channel values, RGBA per pixel) -> `ms;v v v ...`
+/// Calls the real (private) kernel resvg::filter::morphology::apply through the hook.  A call that does not return
+/// within 3 s aborts the worker ("c02-watchdog").
+fn op_morph(payload: &str) -> String {
+    use resvg::verif_hooks::kernels as k;
+    let f: Vec<&str> = payload.split_whitespace().collect();
+    if f.len() < 5 {
+        return "bad".into();
+    }
+    let op = if f[0] == "erode" { usvg::filter::MorphologyOperator::Erode } else { usvg::filter::MorphologyOperator::Dilate };
+    let rx: f32 = f[1].parse().unwrap_or(0.0);
+    let ry: f32 = f[2].parse().unwrap_or(0.0);
+    let w: u32 = f[3].parse().unwrap_or(0);
+    let h: u32 = f[4].parse().unwrap_or(0);
+    let vals: Vec<u8> = f[5..].iter().filter_map(|x| x.parse().ok()).collect();
+    if vals.len() != (4 * w * h) as usize || w == 0 || h == 0 {
+        return "bad".into();
+    }
+    let mut data: Vec<k::RGBA8> = vals.chunks_exact(4).map(|c| k::RGBA8 { r: c[0], g: c[1], b: c[2], a: c[3] }).collect();
+    let done = std::sync::Arc::new(AtomicBool::new(false));
+    let d = done.clone();
+    std::thread::spawn(move || {
+        let t0 = std::time::Instant::now();
+        while !d.load(Ordering::SeqCst) {
+            if t0.elapsed().as_millis() > 3000 {
+                eprintln!("c02-watchdog: morphology kernel exceeded 3000 ms");
+                std::process::abort();
+            }
+            std::thread::sleep(std::time::Duration::from_millis(20));
+        }
+    });
+    let t0 = std::time::Instant::now();
+    k::morphology(op, rx, ry, k::ImageRefMut::new(w, h, &mut data));
+    let ms = t0.elapsed().as_millis();
+    done.store(true, Ordering::SeqCst);
+    let out: Vec<String> = data.iter().flat_map(|p| [p.r, p.g, p.b, p.a]).map(|v| v.to_string()).collect();
+    format!("{};{}", ms, out.join(" "))
 }
